@@ -1,5 +1,5 @@
 ---------------------------- MODULE MC_DateArith ----------------------------
-EXTENDS DateArith, TLC, Json
+EXTENDS DateArithMachine, TLC, Json
 
 Days(lo, hi) == {CivilFromDays(n) : n \in DFC(lo)..DFC(hi)}
 
